@@ -132,7 +132,8 @@ type initCase struct {
 type initObs struct {
 	ID     int    `json:"id"`
 	Errs   []bool `json:"errs"`
-	Served string `json:"served"` // "" none, fake name, or "init"
+	Served string `json:"served"` // "" none, fake name, "init", or "panic" when an operation panicked (no model produces that)
+	Panic  string `json:"panic,omitempty"`
 }
 
 type namedFake struct {
@@ -153,8 +154,16 @@ func runInit(raw json.RawMessage) (interface{}, error) {
 		case "set":
 			f := &namedFake{newFakeManager(), op.Name}
 			fakes = append(fakes, f)
-			err := xdssuite.SetXDSResourceManager(f)
-			o.Errs = append(o.Errs, err != nil)
+			func() {
+				defer func() {
+					if e := recover(); e != nil {
+						o.Panic = fmt.Sprint(e)
+						o.Errs = append(o.Errs, true)
+					}
+				}()
+				err := xdssuite.SetXDSResourceManager(f)
+				o.Errs = append(o.Errs, err != nil)
+			}()
 		case "init":
 			env := map[string]*string{}
 			if op.EnvOK {
@@ -171,8 +180,16 @@ func runInit(raw json.RawMessage) (interface{}, error) {
 				l.Close()
 				mock.StartXDSServer(addr)
 			}
-			err := xds.Init(xds.WithXDSServerAddress(addr))
-			o.Errs = append(o.Errs, err != nil)
+			func() {
+				defer func() {
+					if e := recover(); e != nil {
+						o.Panic = fmt.Sprint(e)
+						o.Errs = append(o.Errs, true)
+					}
+				}()
+				err := xds.Init(xds.WithXDSServerAddress(addr))
+				o.Errs = append(o.Errs, err != nil)
+			}()
 		}
 	}
 	if xdssuite.XDSInited() {
@@ -186,6 +203,9 @@ func runInit(raw json.RawMessage) (interface{}, error) {
 				o.Served = f.name
 			}
 		}
+	}
+	if o.Panic != "" {
+		o.Served = "panic"
 	}
 	return o, nil
 }
